@@ -247,3 +247,22 @@ Example C09_inactivity_nonvacuous :
   sp (pb (prun VNow (pinit 2) (tr_ping_up ++ [LBase LSendOk; LPingTick false]))) = SReport (Some CSend) /\
   penabled VNow (prun VNow (pinit 2) [LBase (LNewCall 1)]) (LPingTick true) = false.
 Proof. exact inactivity_example. Qed.
+
+(* ---------- cancel-safety of the receive loop (structural tie, read from the source on every check) ----------
+   TransportReceiverT::receive is NOT cancel-safe: the WebSocket transport keeps the partly read message (and the
+   fragment / header state of the framing layer) inside the future it returns.  read_task polls that future as one arm of
+   a select loop whose other arms (close_tx.closed(), a finished pending_unsubscribes hand-over, an inactivity tick) can
+   win while a message is half read.  What the models assume from the fact below -- Gen/ShutdownOrderGen.v says `true` iff
+   the receiver is moved into an `unfold` stream pinned BEFORE the loop and the loop's receive arm only polls `.next()`
+   on it, so that the in-flight receive() future survives every iteration until it completes -- is that FRAMES ARE
+   DELIVERED WHOLE: `LAnswer`/`LBadFrame`/`LRecvFault` of Model/ClientShutdown.v and `Back raw` of Model/ClientMgr.v take
+   one complete message as the transport produced it, no label loses or re-frames a prefix of a message, and the other
+   arms of the loop (LInactTick, LRNotice, the hand-over) do not touch the transport.  With a receive() future created
+   per iteration (`false`) that assumption is wrong -- an inactivity tick between two pieces of a message drops the
+   first piece, the answer of a pending call is lost and the connection dies of a framing error although the server and
+   the link were healthy (C03, C09) -- and this file does not compile.  The engine clifault exhibits it on the code
+   (step `backsplit`: a mock receiver that is non-cancel-safe in the same way; oracle keys correct-answer-not-delivered,
+   healthy-connection-torn-down). *)
+Theorem C09_receive_future_persistent : recv_future_persistent = true.
+Proof. exact eq_refl. Qed.
+Print Assumptions C09_receive_future_persistent.
